@@ -436,7 +436,9 @@ func (f *Frame) enterLoop(li *LoopInfo, preds []*ssa.BasicBlock, conds []string)
 		}
 		e.assumeAt(f.curReach, t)
 	}
-	e.addReach(tag, f.curReach, b.Instrs[0].Pos())
+	if f.top {
+		e.addReach(tag, f.curReach, b.Instrs[0].Pos())
+	}
 	for i, d := range li.spec.Decreases {
 		env := f.specEnv(hdr, li, b)
 		v, _, err := env.eval(d.Expr)
@@ -508,8 +510,8 @@ func (f *Frame) backEdge(li *LoopInfo, from *ssa.BasicBlock, ec string) {
 		}
 		e.addObl("inv.preserved", tag+":"+clauseLabel(inv, i), ec, t, pos, inv.Src, clauseProps(inv, f.props()))
 	}
-	if li.spec.NoTerm {
-		return
+	if li.spec.NoTerm || !f.top {
+		return // termination of an inlined callee is not this function's obligation
 	}
 	if len(li.variant) > 0 {
 		env := f.specEnv(f.heap, li, from)
